@@ -429,6 +429,92 @@ fn case_strategy(stray: bool) -> impl Strategy<Value = Case> {
         })
 }
 
+// ---------------- one long-lived serializer (as inside a running node): histories of encodes ----------------
+
+#[derive(Clone, Debug, Serialize, Deserialize)]
+pub struct History {
+    pub password: String,
+    pub lists: Vec<Vec<String>>,
+    /// (hours that pass before the step, index of the list that is encoded)
+    pub steps: Vec<(u32, u8)>,
+    pub start_hour: u32,
+}
+
+/// A node keeps ONE serializer for its whole life and encodes its (mostly unchanged) address list every beacon
+/// interval. Every beacon it produces must carry the time of ITS production: a reader with age limit t accepts it
+/// at production time +- t and rejects it at +- (t + 1), whatever was encoded before.
+pub fn check_history(ctx: &Ctx, c: &History) -> Vec<Viol> {
+    ctx.eval();
+    let cj = || json!({"kind": "history", "case": c});
+    let mut out = vec![];
+    let ser = Ser::new(c.password.as_bytes());
+    let lists: Vec<Vec<SocketAddr>> = c.lists.iter().map(|l| parse_list(l)).collect();
+    if lists.is_empty() {
+        return out;
+    }
+    let mut hour = c.start_hour as i64;
+    let mut repeated = false;
+    let mut last: Option<usize> = None;
+    for (k, (dh, li)) in c.steps.iter().enumerate() {
+        hour += *dh as i64;
+        let li = *li as usize % lists.len();
+        MockTimeSource::set_time(hour * 3600 + 5);
+        let r = catch(|| ser.encode(&lists[li]));
+        let beacon = match r {
+            Ok(b) => b,
+            Err(p) => {
+                out.push(Viol::new(format!("encode-{}", p.sig()), format!("step {}: encode panicked: {}", k, p.msg), cj()));
+                return out;
+            }
+        };
+        // a beacon whose body happens to contain one of the 5-character markers (p ~ 1e-7) is cut at the wrong place
+        // by design of the format: classified and skipped, as in the embedding cases
+        if beacon.len() >= 10 {
+            let (b, e) = (&beacon[..5], &beacon[beacon.len() - 5..]);
+            let inner = &beacon[1..beacon.len() - 1];
+            if count_occurrences(inner, b) + count_occurrences(inner, e) > 0 {
+                ctx.class("history:accidental-marker-in-body(skipped)");
+                continue;
+            }
+        }
+        if last == Some(li) && *dh > 0 {
+            repeated = true;
+        }
+        last = Some(li);
+        let expect = normalise(&lists[li]);
+        let fresh = Ser::new(c.password.as_bytes());
+        for (who, reader) in [("the same serializer", &ser), ("a fresh reader", &fresh)] {
+            for (off, ttl, want) in [(0i64, 0u16, true), (50, 50, true), (-50, 50, true), (51, 50, false), (-51, 50, false), (1, 0, false)] {
+                MockTimeSource::set_time((hour + off) * 3600 + 11);
+                let got = match catch(|| reader.decode(&beacon, Some(ttl))) {
+                    Ok(g) => g,
+                    Err(p) => {
+                        out.push(Viol::new(format!("decode-{}", p.sig()), format!("step {}: decode panicked: {}", k, p.msg), cj()));
+                        return out;
+                    }
+                };
+                let ok = if want { got == expect } else { got.is_empty() };
+                if !ok && !(expect.is_empty()) {
+                    out.push(Viol::new(
+                        if want { "beacon-of-long-lived-serializer-not-recovered" } else { "beacon-of-long-lived-serializer-accepted-out-of-age" },
+                        format!(
+                            "step {} (hour {}, list {}): beacon read by {} {} h {} production with limit {} h gave {:?}, expected {}",
+                            k, hour, li, who, off.abs(), if off < 0 { "before" } else { "after" }, ttl, got, if want { format!("{:?}", expect) } else { "nothing".to_string() }
+                        ),
+                        cj(),
+                    ));
+                    return out;
+                }
+            }
+        }
+    }
+    if repeated {
+        ctx.nontrivial(&("history", &c.password, &c.lists, &c.steps, c.start_hour));
+        ctx.class("history:same-list-encoded-again-later");
+    }
+    out
+}
+
 // ---------------- node level: beacon written by one real node, read by another ----------------
 
 #[derive(Clone, Debug, Serialize, Deserialize)]
@@ -731,6 +817,41 @@ pub fn run(ctx: &Ctx) {
     });
     ctx.sample("node-beacon", || serde_json::to_value(&nb[7]).unwrap());
     ctx.subspace("node level: beacon file written by a real node (own addresses, 0..2 advertised) and read by another one x 3 passwords x ages around the 50 h limit in both directions x store hours x embedding; other password", nnb, false);
+    // (9) one long-lived serializer: all step sequences of length <= 4 over {0, 1, 49, 51, 100 h} x 2 lists, and sampled longer ones
+    {
+        let dhs = [0u32, 1, 49, 51, 100];
+        let lists2 = vec![vec!["10.1.2.3:3210".to_string(), "[2001:db8::7]:3210".to_string()], vec!["192.168.5.5:1".to_string()]];
+        let alpha: Vec<(u32, u8)> = dhs.iter().flat_map(|d| (0..2u8).map(move |l| (*d, l))).collect();
+        let depth = ctx.tier.pick(3u32, 4);
+        let total = (alpha.len() as u64).pow(depth);
+        ctx.par_range_chunked(total, 64, |_, mut i| {
+            let mut steps = vec![];
+            for _ in 0..depth {
+                steps.push(alpha[(i % alpha.len() as u64) as usize]);
+                i /= alpha.len() as u64;
+            }
+            let c = History { password: "mysecretkey".into(), lists: lists2.clone(), steps, start_hour: 65500 };
+            let v = check_history(ctx, &c);
+            ctx.report(v);
+        });
+        ctx.subspace(&format!("long-lived serializer: all sequences of {} encodes over 5 time steps x 2 lists, each beacon read at production time, +-50 h and +-51 h by the same and by a fresh serializer", depth), total, true);
+        let nh: u32 = ctx.tier.pick(3_000, 30_000);
+        ctx.proptest(
+            "pt-history",
+            nh,
+            || (any::<u16>(), proptest::collection::vec((prop_oneof![Just(0u32), 1u32..60, 60u32..70000], 0u8..3), 1..12), any::<u16>(), any::<u64>()),
+            |(pi, steps, start, seed)| {
+                let pws = passwords();
+                let mut rng = ctx.rng("hist", (*seed % 64) as usize);
+                let lists = vec![gen_list(&mut rng, 1 + (*seed % 4) as usize, (*seed / 4 % 3) as usize), gen_list(&mut rng, 2, 0), gen_list(&mut rng, 0, 1)];
+                let c = History { password: pws[pick_idx(*pi, pws.len())].clone(), lists, steps: steps.clone(), start_hour: *start as u32 };
+                let v = check_history(ctx, &c);
+                ctx.sample("history", || serde_json::to_value(&c).unwrap());
+                v
+            },
+        );
+        ctx.subspace("proptest: encode histories of one serializer (up to 12 encodes, time steps 0..70000 h, 3 lists)", nh as u64, false);
+    }
     if std::env::var("VCHECK_FUZZ").is_ok() && !ctx.quick() {
         crate::fuzzdrv::run_campaign(ctx, "beacon_text", 200000);
     }
@@ -740,7 +861,12 @@ pub fn replay(ctx: &Ctx, case: &Value) {
     if crate::fuzzdrv::replay(ctx, case) {
         return;
     }
-    if case["kind"].as_str() == Some("node-beacon") {
+    if case["kind"].as_str() == Some("history") {
+        if let Ok(c) = serde_json::from_value::<History>(case["case"].clone()) {
+            let v = check_history(ctx, &c);
+            ctx.report(v);
+        }
+    } else if case["kind"].as_str() == Some("node-beacon") {
         if let Ok(c) = serde_json::from_value::<NodeBeacon>(case["case"].clone()) {
             let v = node_beacon_case(ctx, &c);
             ctx.report(v);
